@@ -124,11 +124,11 @@ func C05(c *Ctx) {
 		call := s.(ssa.CallInstruction)
 		args := call.Common().Args
 		if len(args) >= 3 {
-			payer = w.ExprOf(args[len(args)-2])
+			payer = valueAtSite(c, dec, s, args[len(args)-2])
 		}
 		isPayer := payer != nil && payer.Op == "call" && strings.HasSuffix(payer.Name, "FeeTx.FeePayer")
 		r.Require(isPayer, "A2.unlock-guard", "payer|"+k, pos(c, s), "the account unlocked is feeTx.FeePayer()", fmt.Sprint(payer))
-		fee := w.ExprOf(args[len(args)-1])
+		fee := valueAtSite(c, dec, s, args[len(args)-1])
 		r.Require(fee.Op == "call" && strings.HasSuffix(fee.Name, "FeeTx.GetFee"), "A2.unlock-guard", "fee|"+k, pos(c, s), "the amount considered is feeTx.GetFee()", fee.String())
 		g2 := w.Guarded(dec, s, func(p ir.Pred) bool {
 			if !p.Pol || p.E.Op != "call" || !strings.HasSuffix(p.E.Name, "types.Coin).IsPositive") {
@@ -139,7 +139,7 @@ func C05(c *Ctx) {
 			for _, a := range x.Alts() {
 				if isStateField(a, secLocked, "Amount") && payer != nil {
 					ka := keyArgs(stateKey(a))
-					if len(ka) == 1 && ka[0].String() == payer.String() {
+					if len(ka) == 1 && (ka[0].String() == payer.String() || sameNonZeroAlts(ka[0], payer)) {
 						ok = true
 					}
 				}
